@@ -7,7 +7,7 @@ from sqv import hlib
 from smartquery import functions
 from smartquery.functions import FUNCTIONS
 from sqv.api import run_eval, prewarm
-from sqv.harness.c19 import RandStub
+from sqv.randstub import RandStub
 
 MUTATORS = {'push', 'pop', 'insert', 'remove', '__setitem__', '__setitem_with_op__', '__delitem__'}
 
